@@ -25,10 +25,10 @@ ASSUMPTIONS = [
 	"the freshness oracle is the library's own fingerprint() on a rebuilt object",
 ]
 EXHAUSTIVE = {"flag": True, "scope": "write path x cached-before x object kind x dtype matrix (values sampled); histories are sampled"}
-ANCHOR_FUNCS = ["vector:Vector.fingerprint", "vector:Vector._invalidate_fp", "vector:Vector._compute_fingerprint_full", "table:Table.fingerprint", "vector:Vector.__setitem__"]
+ANCHOR_FUNCS = ["vector:Vector.fingerprint", "table:Table.fingerprint", "vector:Vector.__setitem__", "table:Table.__setitem__"]
 REQUIRED_STRATA = {"derived": 200, "recompute": 200, "write-path": 400, "sensitivity": 200, "read-only": 100, "steps": 2000}
 
-PATHS = ["reject-after-promote-slice", "reject-after-promote-idx", "reject-after-promote-mask", "promote-equal", "elem", "elem-neg", "slice-seq", "slice-scalar", "mask-list", "mask-vector", "idx-list", "idx-vector", "promote", "none", "rename"]
+PATHS = ["slice-vector", "slice-rev-vector", "slice-rev-vector-cached", "reject-after-promote-slice", "reject-after-promote-idx", "reject-after-promote-mask", "promote-equal", "elem", "elem-neg", "slice-seq", "slice-scalar", "mask-list", "mask-vector", "idx-list", "idx-vector", "promote", "none", "rename"]
 TPATHS = ["view-promote-equal", "view-elem", "view-slice", "cell", "cell-by-name", "row", "column", "region-list", "region-table", "attr-list", "attr-vector", "view-promote", "rename_column"]
 DOM = {
 	"int": [0, 1, 2, 3, 5, 7, -1, -2, 2**61 - 1, 2**61],
@@ -40,20 +40,47 @@ DOM = {
 	"object": [1, "a", 2.5, (1, 2), b"x", V.Plain(3)],
 	"regroup": [(1, (2, 3)), ((1, 2), 3), (1, 2, 3), ((1,), 2, 3), (1, 2, (3,)), ((1, 2, 3),)],      # the same leaves in the same order, grouped differently
 	"sets": [{1, 2}, {2, 1}, {3}, frozenset({1, 5}), {"a", 1}, {(1, 2), (2, 1)}],      # freshness only (sets are unhashable: no sensitivity demand)
+	"setsum": [{1, 2}, {0, 3}, {1, 4}, {2, 3}, {0, 5}],      # sets of one size whose member hashes have one sum
 	"nested": [[1, 2], [1], (3, [4]), {"k": 1}, [1, 2], (3.0, float("nan")), [float("nan")], (1, (2.5, float("nan")))],
 }
 
 
+def _hkey(x):
+	"""what Python's hash() can see of a value, also inside containers that are themselves unhashable (None when that is not determined)"""
+	if isinstance(x, float) and x != x:
+		return ("nan",)
+	if isinstance(x, (set, frozenset)):
+		ks = [_hkey(e) for e in x]
+		return None if any(k is None for k in ks) else ("set", tuple(sorted(map(repr, ks))))
+	if isinstance(x, (list, tuple)):
+		ks = [_hkey(e) for e in x]
+		return None if any(k is None for k in ks) else ("seq", len(x), tuple(ks))
+	if isinstance(x, Vector):
+		return None
+	try:
+		return ("h", hash(x) % P)
+	except Exception:
+		return None
+
+
 def hdistinct(a, b):
-	"""True when a fingerprint must tell a from b (values unequal and hashes differ modulo the fingerprint prime)"""
+	"""True when a fingerprint must tell a from b (values unequal and hashes differ modulo the fingerprint prime; for containers: what hash() sees of
+	their members differs)"""
 	if a is None or b is None:
 		return a is not b
 	try:
 		if a == b:
 			return False
-		return (hash(a) - hash(b)) % P != 0
 	except Exception:
 		return False
+	try:
+		return (hash(a) - hash(b)) % P != 0
+	except Exception:
+		pass
+	if type(a) is not type(b) and not (isinstance(a, (list, tuple)) and isinstance(b, (list, tuple))):
+		return False
+	ka, kb = _hkey(a), _hkey(b)
+	return ka is not None and kb is not None and ka != kb
 
 
 def fp(x):
@@ -96,6 +123,17 @@ def run_vector_path(chk, spec):
 	elif path == "slice-seq":
 		news = [rng.choice(dom) for _ in range(n)]
 		o = call(lambda: v.__setitem__(slice(None), news))
+	elif path in ("slice-vector", "slice-rev-vector", "slice-rev-vector-cached"):
+		# the value is a Vector (possibly with its own fingerprint cached), written through a slice that addresses every position - forwards or backwards
+		news = [rng.choice(dom) for _ in range(n)]
+		src = Vector(list(news))
+		if src.schema() is None or v.schema() is None or isinstance(src, Table):
+			chk.skip("slice-vector-not-applicable")
+			return
+		if path.endswith("cached") or rng.random() < 0.5:
+			fp(src)
+		key = slice(None) if path == "slice-vector" else rng.choice([slice(None, None, -1), slice(-1, None, -1), slice(n - 1, None, -1)])
+		o = call(lambda: v.__setitem__(key, src))
 	elif path == "slice-scalar":
 		o = call(lambda: v.__setitem__(slice(i, i + 1), new)); single = (i, new)
 	elif path == "mask-list":
